@@ -12,7 +12,8 @@ of the same class fed that channel's slice with the same winner sequence; public
 the module tests; equal category counts; `W` = concatenation of the module
 weights; a one-channel gamma=1 FusionART against the bare module; invariance of
 the labels under a permutation of the channels; every elementary class as a
-channel, incl. those whose weight is longer than the channel (finding F07)."""
+channel, incl. those whose weight is longer than the channel (regression guard for F07,
+fixed in /repo 9bccfb4)."""
 from __future__ import annotations
 
 import operator
@@ -30,9 +31,31 @@ RULE = ("cases = (channel classes, widths, gammas, hyper-parameters, stream, bat
         "epsilon, veto table); a case is non-trivial when the trained model has >= 2 categories and >= 2 channels "
         "(>= 2 categories for the one-channel clause); distinct by hash of the whole tuple")
 
-EXACT_CH = ["FuzzyART", "ART2A"]
-LONG = ["HypersphereART", "EllipsoidART", "ART1", "GaussianART", "BayesianART", "QuadraticNeuronART"]
-KIND = {"FuzzyART": "fuzzy", "ART2A": "art2a"}
+EXACT_CH = ["FuzzyART", "ART2A", "ART1"]
+LONG = ["HypersphereART", "EllipsoidART", "ART1", "GaussianART", "BayesianART", "QuadraticNeuronART"]  # weight longer than the channel
+
+
+import contextlib
+import signal
+
+
+class Hang(Exception):
+    pass
+
+
+@contextlib.contextmanager
+def time_limit(sec: int):
+    """a training call that does not return is a finding, not a reason for the check to spin"""
+    def handler(signum, frame):
+        raise Hang(f"no result after {sec}s")
+    old = signal.signal(signal.SIGALRM, handler)
+    signal.alarm(sec)
+    try:
+        yield
+    finally:
+        signal.alarm(0)
+        signal.signal(signal.SIGALRM, old)
+KIND = {"FuzzyART": "fuzzy", "ART2A": "art2a", "ART1": "art1"}
 
 GAMMAS = {
     1: [[1.0]],
@@ -67,7 +90,10 @@ def channel_data(r, cls, ds, n, floats=False, style=None):
 def chans_str(cls, sp, dims, gam) -> str:
     out = []
     for c, s, w, g in zip(cls, sp, dims, gam):
-        out.append(":".join([KIND[c], str(w), q2s(g), q2s(s["rho"]), q2s(s["alpha"]), q2s(s["beta"])]))
+        if c == "ART1":      # the ALPHA field carries L
+            out.append(":".join([KIND[c], str(w), q2s(g), q2s(s["rho"]), q2s(s["L"]), "0"]))
+        else:
+            out.append(":".join([KIND[c], str(w), q2s(g), q2s(s["rho"]), q2s(s["alpha"]), q2s(s["beta"])]))
     return ";".join(out)
 
 
@@ -297,7 +323,7 @@ def train(f, X, r, mode="MT+", eps=0.0, vt=None):
         return not vt[counter["i"]][c_]
     kw = dict(match_reset_func=reset if vt is not None else None, match_tracking=mode, epsilon=eps)
     parts = gen.compositions(r, len(X))
-    with quiet():
+    with quiet(), time_limit(20):
         if len(parts) == 1 and r.random() < 0.5:
             f.fit(X, **kw)
         else:
@@ -367,18 +393,26 @@ def oracle_channelwise(ctx, N, nmax):
         spec = fusion_spec(sp, dims, gam)
         rep = {"spec": spec, "classes": cls, "mode": mode, "eps": eps, "veto": vt, "X": X}
         sig07 = f07_sig(cls)
+        off = np.cumsum([0] + dims)
         try:
             f = make(spec)
             parts = train(f, X, r, mode, eps, vt)
             rep["parts"] = parts
         except Exception as e:
-            if sig07:
-                ctx.issue("violation", sig07, f"training raised {e!r}: a channel module is handed a weight cut to its "
-                          f"data width ({cls}, dims {dims})", rep)
-                cov.hit(f"F07-raises:{[c for c in cls if c in LONG][0]}")
-            else:
-                ctx.issue("violation", f"FusionART.fit:{exc_enum(e)}", f"training raised {e!r} on validated data ({cls})", rep)
+            # is it the FusionART, or does one of the modules fail on its own slice as well?
+            culprit = None
+            for k_, (c_, s_) in enumerate(zip(cls, sp)):
+                try:
+                    with quiet(), time_limit(20):
+                        make(deepcopy(s_)).fit(X[:, off[k_]:off[k_ + 1]])
+                except Exception:
+                    culprit = c_
             cov.case((cls, sp, dims, gam, X.tolist(), mode, eps, vt), False)
+            if culprit:
+                cov.hit(f"module-itself-raises:{culprit}")
+            else:
+                ctx.issue("violation", sig07 or f"FusionART.fit:{exc_enum(e)}",
+                          f"training raised {e!r} although every module trains on its own slice ({cls}, dims {dims})", rep)
             continue
         labels = [int(t) for t in f.labels_]
         ncat = len(f.modules[0].W)
@@ -400,7 +434,6 @@ def oracle_channelwise(ctx, N, nmax):
         if any(c != hist for c in cnts):
             ctx.issue("violation", "FusionART:module-counters!=label-histogram", f"counters {cnts} histogram {hist}", rep)
         # every channel stores what its module alone would compute
-        off = np.cumsum([0] + dims)
         bad_ch = None
         for k_, (c_, s_) in enumerate(zip(cls, sp)):
             Xk = X[:, off[k_]:off[k_ + 1]]
@@ -418,12 +451,9 @@ def oracle_channelwise(ctx, N, nmax):
         if bad_ch:
             ctx.issue("violation", sig07 or f"FusionART({cls[bad_ch[0]]}):channel-weight!=module-rule", bad_ch[1],
                       dict(rep, channel=bad_ch[0]))
-            if sig07:
-                cov.hit(f"F07-truncated:{[c for c in cls if c in LONG][0]}")
             continue
         if sig07:
-            cov.hit("long-class-but-consistent")
-            continue
+            cov.hit(f"longer-weight-channel-ok:{[c for c in cls if c in LONG][0]}")
         # public category_choice / match_criterion_bin
         gam_ = f.params["gamma_values"]
         op = operator.gt if mode in ("MT0", "MT~") else operator.ge
@@ -449,7 +479,7 @@ def oracle_channelwise(ctx, N, nmax):
                           f"match_criterion_bin {mb} vs module tests {bins}", dict(rep, x=x, c=c))
             cov.hit("public-choice-and-bin")
             # tie of the public functions (exact classes, grid data), incl. skipped channels
-            if not floats and all(s.get("beta", 1.0) == 1.0 for s in sp):
+            if not floats and all(c_ in EXACT_CH for c_ in cls) and all(s.get("beta", 1.0) == 1.0 for s in sp):
                 sk = sorted(r.sample(range(len(cls)), r.randint(0, len(cls) - 1))) if len(cls) > 1 and r.random() < 0.5 else []
                 with quiet():
                     Ts, cache_s = f.category_choice(x, w, f.params, skip_channels=sk)
@@ -593,8 +623,8 @@ def run(ctx):
     ctx.assumptions += [
         "float rounding of the gamma-weighted sum is not modelled: histories whose two closest distinct activations "
         "differ by < 1e-9 (relative) are counted and excluded from the label comparison",
-        "channel modules whose weight is longer than the channel width (F07) are outside the proved clauses "
-        "(Art.C10.*_counterexample); they are exercised on the implementation only",
+        "every module's weight vector has a constant length (Chan.wlen, true of all artlib modules); the model "
+        "cuts fused weights at the positions derived from these lengths, as the code does since 9bccfb4",
     ]
     histories(ctx, ctx.scale(1000, 8000), ctx.scale(14, 40))
     oracle_channelwise(ctx, ctx.scale(900, 7000), ctx.scale(12, 40))
